@@ -128,7 +128,7 @@ def handle (s : Sess) (line : String) : IO Sess := do
 partial def loop (h : IO.FS.Stream) (s : Sess) : IO Unit := do
   let line ← h.getLine
   if line.isEmpty then return ()
-  let s' ← handle s line.trimRight
+  let s' ← handle s ((line.replace "\n" "").replace "\r" "")
   loop h s'
 
 end D19
